@@ -462,6 +462,7 @@ func (context *RunContext) Load() error {
 		if err != nil {
 			return err
 		} else {
+			verifCrashPoint("ctx.created")
 			return context.Flush()
 		}
 	} else {
@@ -557,6 +558,7 @@ func (context *RunContext) flush(headBuf, bodyBuf []byte) error {
 		return err
 	}
 
+	verifCrashWrite("head", context.Path, file, headBuf)
 	n, err := file.Write(headBuf)
 	if err != nil {
 		return err
@@ -571,6 +573,7 @@ func (context *RunContext) flush(headBuf, bodyBuf []byte) error {
 		return err
 	}
 
+	verifCrashWrite("body", context.Path, file, bodyBuf)
 	n, err = file.Write(bodyBuf)
 	if err != nil {
 		return err
